@@ -553,6 +553,45 @@ ViewConvert(v, s, c) ==
     /\ UNCHANGED <<known, queue, nextID, allS, files, indexes, use, tags, flags, during, unmerge, jobs, views, toConv>>
 
 -----------------------------------------------------------------------------
+(* ---------- process kill and restart (manager.go:233-466, New; builder.go:37-97) ----------
+   What a kill leaves behind is the data directory: the index files (complete ones; a file a job was still
+   writing is cut short and is skipped by the loader), the converter caches, the capture directory (every
+   uploaded capture, processed or only queued) and the newest complete state file with the tag table
+   (definition, matches, converter attachments, colour) as of the last closure that saved it.
+   New() serves every loadable index file in file-name order, derives nextStreamID from them, marks every
+   non-mark tag completely uncertain (marks are re-derived from their definition), queues the saved matches
+   of tags with converters, and runs the three start...IfNeeded calls.  Captures that were only queued are known
+   to the new builder (it lists the directory) but are never imported.
+     ord : the loadable index files in file-name order     T : the tag table that is loaded *)
+Durable(tg) == [t \in DOMAIN tg |-> [def |-> tg[t].def, M |-> tg[t].M, convs |-> tg[t].convs]]
+AfterRestart(F, ord, T, ca, kn, q, pick) ==
+    LET ents == UNION {ContentOf(F, ord[i]) : i \in DOMAIN ord}
+        nxt  == IF ents = {} THEN 0 ELSE Max(IdsOf(ents)) + 1
+        all  == 0 .. (nxt - 1)
+        tg0  == [t \in DOMAIN T |->
+                    [def |-> T[t].def,
+                     M |-> IF IsMarkName(t) THEN MarkIDs(T[t].def, nxt) ELSE T[t].M,
+                     U |-> IF IsMarkName(t) THEN {} ELSE all,
+                     convs |-> T[t].convs,
+                     refBy |-> {u \in DOMAIN T : t \in Refs(T[u].def)}]]
+        tc0  == [c \in DOMAIN ca |-> UNION {tg0[t].M : t \in {u \in DOMAIN tg0 : c \in tg0[u].convs}}]
+        b0   == Bundle(tg0, [merge |-> FALSE, tag |-> FALSE, conv |-> FALSE],
+                       [k \in {"import", "tag", "merge", "conv"} |-> NoJob(k)],
+                       LockSeq(<<>>, ord), [upd |-> {}, res |-> {}, add |-> {}, inv |-> {}], tc0)
+        b1   == StartTag(b0, ord, IF pick \in DOMAIN tg0 THEN pick ELSE "")      \* (total: records are evaluated eagerly)
+        b2   == StartConv(b1, ord)
+    IN [known |-> kn \cup Range(q), nextID |-> nxt, allS |-> all, indexes |-> ord, tg0 |-> tg0,
+        bundle |-> StartMerge(b2, ord, F, 0)]
+Restart(ord, T, pick) ==
+    LET n == AfterRestart(files, ord, T, cache, known, queue, pick) IN
+    /\ Range(ord) \subseteq DOMAIN files
+    /\ pick \in TagPicks(n.tg0, [merge |-> FALSE, tag |-> FALSE, conv |-> FALSE])
+    /\ known' = n.known /\ queue' = <<>> /\ nextID' = n.nextID /\ allS' = n.allS
+    /\ indexes' = n.indexes /\ unmerge' = 0 /\ views' = <<>>
+    /\ Install(n.bundle)
+    /\ UNCHANGED <<files, cache>>
+
+-----------------------------------------------------------------------------
 (* ---------- properties ---------- *)
 \* from-scratch truth of every tag on the current data (bottom-up through references)
 RECURSIVE TruthOf(_, _, _)
